@@ -379,26 +379,26 @@ structure MgrNext (W : World) (m : Mgr) (method url : Str) (redirect : Bool) (kw
   method_eq : m' = (rewrite303 s.reply.status method kw.body (mgrHeaders m u kw)).1
   body_eq : kw'.body = (rewrite303 s.reply.status method kw.body (mgrHeaders m u kw)).2.1
   headers_eq : kw'.headers = some (if same then (rewrite303 s.reply.status method kw.body (mgrHeaders m u kw)).2.2
-    else strip (deriveRetry kw.retries redirect .none).removeHeadersOnRedirect
+    else strip (deriveRetry kw.retries redirect m.retries).removeHeadersOnRedirect
       (rewrite303 s.reply.status method kw.body (mgrHeaders m u kw)).2.2)
-  same_eq : ((deriveRetry kw.retries redirect .none).removeHeadersOnRedirect.isEmpty = true ∧ same = true) ∨
+  same_eq : ((deriveRetry kw.retries redirect m.retries).removeHeadersOnRedirect.isEmpty = true ∧ same = true) ∨
     (∃ lu, W.parse u' = some lu ∧ same = isSameHost conn.id u' lu)
   retries_eq : kw'.retries = .retry r'
-  incr : (deriveRetry kw.retries redirect .none).increment (some m') (.redirect s.reply.status) = .ok r'
+  incr : (deriveRetry kw.retries redirect m.retries).increment (some m') (.redirect s.reply.status) = .ok r'
 
-theorem mgrRedirect_next {W : World} {conn : Pool} {method url : Str} {redirect : Bool} {headers : Hdrs}
+theorem mgrRedirect_next {W : World} {m : Mgr} {conn : Pool} {method url : Str} {redirect : Bool} {headers : Hdrs}
     {kw : Kw} {first : Run} {reply : Reply} {loc : Str} {log : List Sent} {m' u' : Str} {kw' : Kw}
-    (h : mgrRedirect W conn method url redirect headers kw first reply loc = .next log m' u' kw') :
+    (h : mgrRedirect W m conn method url redirect headers kw first reply loc = .next log m' u' kw') :
     log = first.log ∧ W.join url loc = some u' ∧
     m' = (rewrite303 reply.status method kw.body headers).1 ∧
     kw'.body = (rewrite303 reply.status method kw.body headers).2.1 ∧
     ∃ same r', kw'.headers = some (if same then (rewrite303 reply.status method kw.body headers).2.2
-        else strip (deriveRetry kw.retries redirect .none).removeHeadersOnRedirect
+        else strip (deriveRetry kw.retries redirect m.retries).removeHeadersOnRedirect
           (rewrite303 reply.status method kw.body headers).2.2) ∧
-      (((deriveRetry kw.retries redirect .none).removeHeadersOnRedirect.isEmpty = true ∧ same = true) ∨
+      (((deriveRetry kw.retries redirect m.retries).removeHeadersOnRedirect.isEmpty = true ∧ same = true) ∨
         (∃ lu, W.parse u' = some lu ∧ same = isSameHost conn.id u' lu)) ∧
       kw'.retries = .retry r' ∧
-      (deriveRetry kw.retries redirect .none).increment (some m') (.redirect reply.status) = .ok r' := by
+      (deriveRetry kw.retries redirect m.retries).increment (some m') (.redirect reply.status) = .ok r' := by
   unfold mgrRedirect at h
   split at h
   · cases h
@@ -496,7 +496,7 @@ theorem mgrStep_done_len {W : World} {m : Mgr} {method url : Str} {redirect : Bo
 /-- **manager-level budget**: requests sent ≤ 1 + redirect budget of the policy the code derives -/
 theorem mgr_len_redirect (W : World) (m : Mgr) :
     ∀ (fuel : Nat) (method url : Str) (redirect : Bool) (kw : Kw) (b : Nat),
-      (deriveRetry kw.retries redirect .none).redirect.budget = some b →
+      (deriveRetry kw.retries redirect m.retries).redirect.budget = some b →
       (mgrUrlopen W m fuel method url redirect kw).log.length ≤ b + 1 := by
   intro fuel
   induction fuel with
@@ -517,7 +517,7 @@ theorem mgr_len_redirect (W : World) (m : Mgr) :
 
 theorem mgr_len_total (W : World) (m : Mgr) :
     ∀ (fuel : Nat) (method url : Str) (redirect : Bool) (kw : Kw) (b : Nat),
-      (deriveRetry kw.retries redirect .none).total.budget = some b →
+      (deriveRetry kw.retries redirect m.retries).total.budget = some b →
       (mgrUrlopen W m fuel method url redirect kw).log.length ≤ b + 1 := by
   intro fuel
   induction fuel with
@@ -838,14 +838,14 @@ theorem mgrSend_shape2 (W : World) (m : Mgr) (conn : Pool) (u : PUrl) (method ur
       simp only [hR, Run.withUrl_outcome]
       exact notFollowed_outcome r method s
 
-theorem mgrRedirect_done {W : World} {conn : Pool} {method url : Str} {redirect : Bool} {headers : Hdrs}
+theorem mgrRedirect_done {W : World} {m : Mgr} {conn : Pool} {method url : Str} {redirect : Bool} {headers : Hdrs}
     {kw : Kw} {first : Run} {reply : Reply} {loc : Str} {R : Run}
-    (h : mgrRedirect W conn method url redirect headers kw first reply loc = .done R) :
+    (h : mgrRedirect W m conn method url redirect headers kw first reply loc = .done R) :
     R.log = first.log ∧
     (R.outcome = .oracleMissing ∨
-      ((∃ m' c, (deriveRetry kw.retries redirect .none).increment (some m') (.redirect reply.status)
+      ((∃ m' c, (deriveRetry kw.retries redirect m.retries).increment (some m') (.redirect reply.status)
           = .error (.maxRetry c)) ∧
-        R.outcome = (if (deriveRetry kw.retries redirect .none).raiseOnRedirect then .maxRetry
+        R.outcome = (if (deriveRetry kw.retries redirect m.retries).raiseOnRedirect then .maxRetry
           else first.outcome))) := by
   unfold mgrRedirect at h
   split at h
@@ -867,7 +867,7 @@ theorem mgrStep_done_shape {W : World} {m : Mgr} {method url : Str} {redirect : 
     (h : mgrStep W m method url redirect kw = .done R) :
     (R.log = [] ∧ (∀ r, R.outcome ≠ .response r) ∧ R.outcome ≠ .maxRetry ∧ R.outcome ≠ .statusRetry) ∨
     (∃ s, MgrPass W m method url kw s ∧ R.log = [s] ∧
-      EndsWith R s redirect (deriveRetry kw.retries redirect .none)) := by
+      EndsWith R s redirect (deriveRetry kw.retries redirect m.retries)) := by
   unfold mgrStep at h
   split at h
   · injection h with h; subst h
@@ -1110,12 +1110,12 @@ theorem pool_disabled (W : World) (p : Pool) (fuel : Nat) (method url : Str) (bo
 
 theorem mgr_disabled (W : World) (m : Mgr) (fuel : Nat) (method url : Str) (redirect : Bool) (kw : Kw)
     (h : redirect = false ∨
-      ((deriveRetry kw.retries redirect .none).redirect.budget = some 0 ∨
-       (deriveRetry kw.retries redirect .none).total.budget = some 0)) :
+      ((deriveRetry kw.retries redirect m.retries).redirect.budget = some 0 ∨
+       (deriveRetry kw.retries redirect m.retries).total.budget = some 0)) :
     (mgrUrlopen W m fuel method url redirect kw).log = [] ∨
     ∃ s, (mgrUrlopen W m fuel method url redirect kw).log = [s] ∧ MgrPass W m method url kw s ∧
       EndsWith (mgrUrlopen W m fuel method url redirect kw) s redirect
-        (deriveRetry kw.retries redirect .none) := by
+        (deriveRetry kw.retries redirect m.retries) := by
   cases fuel with
   | zero => left; rfl
   | succ n =>
@@ -1357,8 +1357,8 @@ theorem pool_surface (W : World) (p : Pool) (redirect ash : Bool) :
 theorem mgr_surface (W : World) (m : Mgr) (redirect : Bool) :
     ∀ (fuel : Nat) (method url : Str) (kw : Kw),
       Surface (mgrUrlopen W m fuel method url redirect kw) redirect
-        (deriveRetry kw.retries redirect .none) := by
-  apply mgr_induct W m redirect (fun _ _ kw R => Surface R redirect (deriveRetry kw.retries redirect .none))
+        (deriveRetry kw.retries redirect m.retries) := by
+  apply mgr_induct W m redirect (fun _ _ kw R => Surface R redirect (deriveRetry kw.retries redirect m.retries))
   · intro _ _ _
     exact ⟨fun _ => ⟨by simp, by simp⟩, fun pre s hl => by simp at hl⟩
   · intro method url kw R hR
@@ -1397,47 +1397,11 @@ theorem run_pool (W : World) (p : Pool) (fuel : Nat) (req : Req) :
     run W (.pool p) fuel req = poolUrlopen W p fuel (requestWrap (.pool p) req).1 req.url req.body
       (requestWrap (.pool p) req).2 req.retries (req.redirect.getD true) (req.assertSameHost.getD true) := rfl
 
-/-- the policy is *placed* where the code looks: per request, or on a bare pool, or nowhere -/
-def PlacementHonoured (c : Client) (req : Req) : Prop :=
-  req.retries ≠ .none ∨ (∃ p, c = .pool p) ∨ (∃ m, c = .manager m ∧ m.retries = .none)
-
-theorem effective_eq_supplied (c : Client) (req : Req) (h : PlacementHonoured c req) :
-    effective c req = supplied c req := by
-  cases c with
-  | pool p => rfl
-  | manager m =>
-    simp only [effective, supplied]
-    rcases h with h | ⟨p, hp⟩ | ⟨m', hm, hn⟩
-    · cases hr : req.retries with
-      | none => exact absurd hr h
-      | false => rfl
-      | int n => rfl
-      | retry r => rfl
-    · cases hp
-    · cases hm; rw [hn]
-
-/-- the only placement the code does not honour: the policy sits on the manager constructor alone -/
-theorem not_placementHonoured_iff (c : Client) (req : Req) :
-    ¬ PlacementHonoured c req ↔ ∃ m, c = .manager m ∧ req.retries = .none ∧ m.retries ≠ .none := by
-  constructor
-  · intro h
-    cases c with
-    | pool p => exact absurd (Or.inr (Or.inl ⟨p, rfl⟩)) h
-    | manager m =>
-      refine ⟨m, rfl, ?_, ?_⟩
-      · cases hr : req.retries with
-        | none => rfl
-        | false => exact absurd (Or.inl (by rw [hr]; intro h'; cases h')) h
-        | int n => exact absurd (Or.inl (by rw [hr]; intro h'; cases h')) h
-        | retry r => exact absurd (Or.inl (by rw [hr]; intro h'; cases h')) h
-      · intro hm
-        exact h (Or.inr (Or.inr ⟨m, rfl, hm⟩))
-  · rintro ⟨m, hc, hr, hm⟩ h
-    subst hc
-    rcases h with h | ⟨p, hp⟩ | ⟨m', hm', hn⟩
-    · exact h hr
-    · cases hp
-    · cases hm'; exact hm hn
+/-- the policy the code consults is the one the caller supplied, wherever it was placed: per request,
+on the bare pool, or on the `PoolManager` / `ProxyManager` constructor (`PoolManager.urlopen` falls back
+to `connection_pool_kw["retries"]` just as the pool falls back to `self.retries`) -/
+theorem effective_eq_supplied (c : Client) (req : Req) : effective c req = supplied c req := by
+  cases c <;> rfl
 
 theorem run_surface (W : World) (c : Client) (fuel : Nat) (req : Req) :
     Surface (run W c fuel req) (req.redirect.getD true) (effective c req) := by
